@@ -411,12 +411,14 @@ def configs(tier, rng):
       if kw.get('monotonicities'):
         jobs.append(('units', dict(target='lattice_finalize', units=U, kw=kw)))
   for mono in (1, -1, 0):
-    for conv in (0, 1):
+    for conv in (0, 1, -1):
       for b in (dict(), dict(output_min=0.0, output_max=1.0), dict(output_min=-1.0, clamp_min=bool(mono)),
                 dict(output_max=2.0)):
-        for lengths in ([1.0], [0.5, 1.5], [1.0, 1.0, 2.0]):
+        for lengths in ([1.0], [0.5, 1.5], [1.0, 1.0, 2.0], [1.0, 2.0, 0.5, 1.0]):
           for U in (2, 3):
-            if tier == 'quick' and U == 3 and len(lengths) == 3:
+            if tier == 'quick' and U == 3 and len(lengths) >= 3:
+              continue
+            if tier == 'quick' and len(lengths) == 4 and (conv == 0 or 'clamp_min' in b):
               continue
             jobs.append(('units', dict(target='pwl_constraints', units=U, iters=2,
                                        kw=dict(monotonicity=mono, convexity=conv, lengths=lengths, **b))))
